@@ -7,7 +7,7 @@ from ..keval import KEval, Ref, Cond, Const, Top
 from ..poly import Poly, ZERO, ONE
 from ..forms import value_poly, real_guards, short, acc_name_of, is_full_range, norm_cond, CMP, AND, OR
 from ..trav import check_slim_counter, counter_increments, counter_init_zero
-from .. import wire
+from .. import wire, paths
 from ..model import norm_text, AnchorMissing
 from ..controls import Control
 from ..mutate import in_func
@@ -326,19 +326,16 @@ def views_rule(ctx, p):
         m = dm.lookup(name)
         if m is None:
             raise AnchorMissing(f"DeriveMask2D.{name}")
-        full = [n for n in m.body_nodes() if isinstance(n, ast.Assign) and isinstance(n.value, ast.Call) and norm_text(n.value.func) in ("np.full", "numpy.full")]
-        ok = len(full) == 1
-        if ok:
-            kw_ = wire.kw(full[0].value)
-            ok = isinstance(kw_.get("fill_value"), ast.Constant) and kw_["fill_value"].value is True and norm_text(kw_.get("shape")) in ("self.mask.shape", "self.mask.shape_native")
-        sets = [n for n in m.body_nodes() if isinstance(n, ast.Assign) and isinstance(n.targets[0], ast.Subscript)]
-        ok = ok and len(sets) == 1 and isinstance(sets[0].value, ast.Constant) and sets[0].value.value is False
-        if ok:
-            els = sets[0].targets[0].slice.elts if isinstance(sets[0].targets[0].slice, ast.Tuple) else []
-            ok = [norm_text(x) for x in els] == [f"self.derive_indexes.{src}[:, 0]", f"self.derive_indexes.{src}[:, 1]"]
-        rets = wire.returns_of(m)
-        rk = {k: norm_text(v) for k, v in wire.kw(rets[0].value).items()} if rets and isinstance(rets[0].value, ast.Call) else {}
-        ok = ok and rk == {"mask": "mask", "pixel_scales": "self.mask.pixel_scales", "origin": "self.mask.origin"}
+        # name-free: what is returned, with the locals substituted (sa/paths.py)
+        PS = paths.path_summaries(m)
+        rets = paths.returns(PS) if PS is not None else []
+        ok = len(rets) == 1 and not rets[0].conds and isinstance(rets[0].value, ast.Call)
+        rk = {k: paths.ptext(v) for k, v in paths.kwargs(rets[0].value).items()} if ok else {}
+        sp = paths.store_parts(paths.kwargs(rets[0].value).get("mask")) if ok else None
+        ok = ok and sp is not None and paths.ptext(sp[0]) in tuple(f"np.full({sh},True)" for sh in ("self.mask.shape", "self.mask.shape_native")) + tuple(f"np.ones({sh},dtype=bool)" for sh in ("self.mask.shape", "self.mask.shape_native")) \
+            and paths.ptext(sp[1]) == f"(self.derive_indexes.{src}[:,0],self.derive_indexes.{src}[:,1])" and paths.ptext(sp[2]) == "False"
+        ok = ok and {k: v for k, v in rk.items() if k != "mask"} == {"pixel_scales": "self.mask.pixel_scales", "origin": "self.mask.origin"} and set(rk) == {"mask", "pixel_scales", "origin"}
+        rk = {k: v[:80] for k, v in rk.items()}
         ctx.ob(rule, f"{dm.key}.{name}", ok, where=m, node=m.node, construct=str(rk), message=f"the {name} mask must be all-True except [{src}[:,0], {src}[:,1]] = False, on the parent's geometry")
     dg = p.cls("autoarray.mask.derive.grid_2d:DeriveGrid2D")
     for name, src in (("edge", "edge_slim"), ("border", "border_slim")):
